@@ -1114,6 +1114,12 @@ def skymask(invvar, andmask, ormask=None, ngrow=2):
     redmonster = sdss_flagval('SPPIXMASK', 'REDMONSTER')
     # brightsky = sdss_flagval('SPPIXMASK', 'BRIGHTSKY')
     if ormask is not None:
+        #
+        # sdss_flagval() returns numpy.uint64, which cannot be combined with
+        # the signed integer masks stored in spPlate files.
+        #
+        badskychi = badskychi.astype(ormask.dtype)
+        redmonster = redmonster.astype(ormask.dtype)
         badmask = badmask | ((ormask & badskychi) != 0)
         badmask = badmask | ((ormask & redmonster) != 0)
         # badmask = badmask | ((andmask & brightsky) != 0)
